@@ -68,7 +68,7 @@ def load_known(path):
     fixed = []
     if not os.path.exists(path):
         return known, fixed
-    with open(path) as fh:
+    with open(path, encoding="utf-8") as fh:
         for ln in fh:
             ln = ln.strip()
             if not ln or ln.startswith("#"):
